@@ -319,7 +319,7 @@ func (e *Eval) compile(node ast.Node) error {
 		// Output the body
 		err = e.compile(node.Body)
 		if err != nil {
-			return nil
+			return err
 		}
 
 		// repeat
